@@ -822,7 +822,10 @@ class KafkaClient(object):
         while self._api_versions is None and api_version_failures < 3:
             try:
                 resp = yield self._send_broker_unaware_request(requestId, req)
-                self._handle_api_version_update(KafkaCodec.decode_api_versions_response(resp))
+                if self._api_versions is None:
+                    # The first lookup to finish decides: messages may already
+                    # have been built in the format that goes with its answer
+                    self._handle_api_version_update(KafkaCodec.decode_api_versions_response(resp))
                 break
             except KafkaUnavailableError:
                 log.warning("Timed out trying to get API versions from %r", self)
